@@ -296,4 +296,63 @@ Section Model.
                       let s := fst (snd ls) in let k := snd (snd ls) in
                       (i, mkFxn (div (add (mul (fx_p old) (of_nat (fx_cnt old))) s) (of_nat (k + fx_cnt old)))
                                 (fx_cnt old + k) true)) g) st.
+
+  (* ---------------------------------------------------------------- set_fixed_node_entries, grouped form *)
+  (* the same function with the pit columns as the code has them: PINIT, EXT_GRID_OCCURENCE (a float column) and
+     the type flag as three lists; juncts, val_sum, number = _sum_by_group(junctions[mask], values[mask], ones) *)
+  Fixpoint glookup (l : Z) (g : list (Z * A)) : A :=
+    match g with [] => zero | (l', s) :: r => add (if Z.eqb l l' then s else zero) (glookup l r) end.
+
+  Fixpoint set_nth_g {X} (i : nat) (v : X) (l : list X) : list X :=
+    match l, i with
+    | [], _ => []
+    | _ :: r, O => v :: r
+    | a :: r, S i' => a :: set_nth_g i' v r
+    end.
+
+  Record fx_state := mkFxs { fs_p : list A; fs_cnt : list A; fs_isP : list bool }.
+
+  Definition fx_values (rows : list fx_row) : list (Z * A) :=
+    map (fun r => (fx_junction r, fx_value r)) (filter fx_valid rows).
+  Definition fx_ones (rows : list fx_row) : list (Z * A) :=
+    map (fun r => (fx_junction r, one)) (filter fx_valid rows).
+
+  Definition fixed_entries2 (pos : Z -> nat) (rows : list fx_row) (st : fx_state) : fx_state :=
+    let gv := sum_by_group (fx_values rows) in
+    let gn := sum_by_group (fx_ones rows) in
+    let p := fs_p st in let c := fs_cnt st in
+    mkFxs
+      (scatter (map (fun ls => let i := pos (fst ls) in
+                       (i, div (add (mul (nth i p zero) (nth i c zero)) (snd ls))
+                               (add (glookup (fst ls) gn) (nth i c zero)))) gv) p)
+      (scatter (map (fun ls => let i := pos (fst ls) in (i, add (nth i c zero) (glookup (fst ls) gn))) gv) c)
+      (fold_left (fun acc ls => set_nth_g (pos (fst ls)) true acc) gv (fs_isP st)).
+
+  (* ---------------------------------------------------------------- result extraction (node elements) *)
+  (* ConstFlow.extract_results: rows that are in service AND whose junction is supplied report mdot * scaling,
+     all other rows keep what init_results wrote (NaN = None) *)
+  Definition constflow_results (supplied : Z -> bool) (rows : list cf_row) (old : list (option A)) : list (option A) :=
+    map (fun ro => if cf_in_service (fst ro) && supplied (cf_junction (fst ro))
+                   then Some (mul (cf_mdot (fst ro)) (cf_scaling (fst ro))) else snd ro) (combine rows old).
+
+  Definition reported_or_zero (r : cf_row) : A :=
+    if cf_in_service r then mul (cf_mdot r) (cf_scaling r) else zero.
+
+  (* ExtGrid.extract_results: p_grids = type in (p, pt) & in_service; the slack mass of the node is split evenly
+     among the p_grids rows on it (np.unique ... return_counts) *)
+  Record eg_row := mkEg { eg_junction : Z; eg_valid : bool; eg_in_service : bool }.
+  Definition eg_active (r : eg_row) : bool := eg_valid r && eg_in_service r.
+  Definition eg_at (pos : Z -> nat) (i : nat) (rows : list eg_row) : list eg_row :=
+    filter (fun r => eg_active r && Nat.eqb (pos (eg_junction r)) i) rows.
+  Definition eg_count (pos : Z -> nat) (i : nat) (rows : list eg_row) : A :=
+    sumlist (map (fun _ => one) (eg_at pos i rows)).
+  Definition eg_value (pos : Z -> nat) (rows : list eg_row) (msl : list A) (r : eg_row) : A :=
+    div (nth (pos (eg_junction r)) msl zero) (eg_count pos (pos (eg_junction r)) rows).
+  Definition extgrid_results (pos : Z -> nat) (rows : list eg_row) (msl : list A) (old : list (option A))
+    : list (option A) :=
+    map (fun ro => if eg_active (fst ro) then Some (eg_value pos rows msl (fst ro)) else snd ro) (combine rows old).
+
+  (* get_basic_branch_results: mf_from = MDOTINIT, mf_to = - MDOTINIT per pit branch (placement per element: C06) *)
+  Definition branch_mf_from (ms : list A) : list A := ms.
+  Definition branch_mf_to (ms : list A) : list A := map opp ms.
 End Model.
